@@ -85,6 +85,9 @@ impl Property for C20 {
     fn case_limit_s(&self) -> u64 {
         60
     }
+    fn fuzz(&self) -> Option<crate::FuzzSpec> {
+        Some(crate::FuzzSpec { label: "c20-ws", max_len: 800, runs: 650 })
+    }
     fn run(&self, ctx: &mut Ctx) {
         let corpus_files = corpus();
         let cases = ctx.tier.pick(2_000, 60_000);
